@@ -346,7 +346,7 @@ class TracingStorage:
             kind = None
             hit: Dict[str, Any] = {}
             for f in self._plan:
-                if f["op"] == code and f["key"] == path and f["occ"] == occ:
+                if f["op"] == code and f["key"] == path and f["occ"] in (occ, "*"):     # "*": the call fails every time
                     kind, hit = f["kind"], f
                     break
             self.trace.append((code, path, (hit.get("code") or FAULT_CODE.get(kind, 0)) if kind else 0))
